@@ -8,6 +8,8 @@
 package mgmt
 
 import (
+	"math"
+
 	"github.com/named-data/ndnd/fw/core"
 	"github.com/named-data/ndnd/fw/dispatch"
 	"github.com/named-data/ndnd/fw/fw"
@@ -84,6 +86,14 @@ func (c *ContentStoreModule) config(interest *spec.Interest, pitToken []byte, in
 	if (params.Flags == nil && params.Mask != nil) || (params.Flags != nil && params.Mask == nil) {
 		core.LogWarn(c, "Flags and Mask fields must either both be present or both be not present")
 		response = makeControlResponse(409, "ControlParameters are incorrect", nil)
+		c.manager.sendResponse(response, interest, pitToken, inFace)
+		return
+	}
+
+	if params.Capacity != nil && *params.Capacity > math.MaxInt {
+		// Would wrap around to a negative capacity, which the replacement policy cannot satisfy
+		core.LogWarn(c, "CS capacity ", *params.Capacity, " is out of range")
+		response = makeControlResponse(409, "Capacity is out of range", nil)
 		c.manager.sendResponse(response, interest, pitToken, inFace)
 		return
 	}
